@@ -53,6 +53,20 @@ def alphabet(U):
     tasks = range(n)
     seqs = _seqs(n)
     dids = sorted(set(U.ids))
+    if U.alphabet == 'structure':
+        # cheap alphabet that reaches every hierarchy / membership state (also the hidden ones, e.g. stale owners):
+        # used as phase 1 of the two-phase deep exploration
+        conts = [('T', i) for i in tasks] + [('W', k) for k in range(m)]
+        for c in conts:
+            for y in tasks:
+                ops.append(('append', c, y))
+                ops.append(('remove', c, y))
+        for x in tasks:
+            ops.append(('parent', x, None))
+        for k in range(m):
+            for y in tasks:
+                ops.append(('W.remove', k, y))
+        return ops
     if U.alphabet == 'reach':
         # C10/C18 state supply: just enough to reach every shape and link placement.
         # tasks 0..n-2 live in/around W0, the last task only in W1.
